@@ -369,6 +369,9 @@ func main() {
 		if *prop != "" && !contains(ct.Props, *prop) {
 			continue
 		}
+		if ct.PointsOnly {
+			continue
+		}
 		cts = append(cts, ct)
 	}
 	sort.Slice(cts, func(i, j int) bool { return contractName(cts[i]) < contractName(cts[j]) })
@@ -460,6 +463,12 @@ func main() {
 				if r.Status == "unsat" {
 					r.Solver += " (ground instances)"
 					j.o.Res = r
+					return
+				}
+				if r.Status == "sat" && timeout <= 60 {
+					// the instantiated VC has a model: the quantified VC is rarely
+					// provable then; give it a third of the budget in the quick tier
+					j.o.Res = Solve(script, probes, timeout/3, lam)
 					return
 				}
 			}
